@@ -141,7 +141,7 @@ def _run(R):
     R.require("group-structure", "group-values", "score-preserving")
     R.assumptions = ["specification order of the groups: v2 E,RL,RC / CDP,TD,CR,IR,AR; v3 E,RL,RC / CR,IR,AR,MAV,MAC,MPR,MUI,MS,"
                      "MC,MI,MA"]
-    n = R.pick(20000, 200000)
+    n = R.pick(20000, 2000000)
     for ver in ("2", "3"):
         R.pmap("shard", [(ver, i, 16, n, R.seed) for i in range(16)])
     for ver in ("2", "3"):
